@@ -163,6 +163,50 @@ def _graph(ce, prog, n, edges):
     return g
 
 
+def K16_system_rows(rep, flow: Flow):
+    """where the linear system of the layer search is filled row by row: a matrix allocated with p*N rows and stored into at
+    row p*i+j is filled for every i in range(N) - the same N (one block of p rows per QUBIT, also when there are fewer
+    operators than qubits)"""
+    rep.rule("K16", "the row-wise filled system matrix of the layer search has as many row blocks as its allocation says: `A[p*i+j] = ...` with A = zeros((p*N, ...)) runs i over range(N)", floor=0)
+    m = flow.prog.modules.get(FLC.split(".")[0])
+    if m is None:
+        raise AnalysisError("module find_local_clifford_layer vanished")
+    for f in m.all_funcs:
+        allocs = {}
+        for n in ast.walk(f.node):
+            if isinstance(n, ast.Assign) and len(n.targets) == 1 and isinstance(n.targets[0], ast.Name) and isinstance(n.value, ast.Call) and ast.unparse(n.value.func).endswith("zeros"):
+                shp = next((k.value for k in n.value.keywords if k.arg == "shape"), n.value.args[0] if n.value.args else None)
+                if isinstance(shp, (ast.Tuple, ast.List)) and len(shp.elts) == 2 and isinstance(shp.elts[0], ast.BinOp) and isinstance(shp.elts[0].op, ast.Mult):
+                    allocs[n.targets[0].id] = shp.elts[0]
+        if not allocs:
+            continue
+        for loop in [x for x in ast.walk(f.node) if isinstance(x, ast.For) and isinstance(x.target, ast.Name) and isinstance(x.iter, ast.Call) and isinstance(x.iter.func, ast.Name) and x.iter.func.id == "range" and len(x.iter.args) == 1]:
+            iv = loop.target.id
+            for st in ast.walk(loop):
+                if isinstance(st, ast.Assign) and isinstance(st.targets[0], ast.Subscript) and isinstance(st.targets[0].value, ast.Name) and st.targets[0].value.id in allocs:
+                    idx = st.targets[0].slice
+                    if not (isinstance(idx, ast.BinOp) and isinstance(idx.op, ast.Add) and isinstance(idx.left, ast.BinOp) and isinstance(idx.left.op, ast.Mult)):
+                        continue
+                    mult = idx.left
+                    names_idx = {x.id for x in (mult.left, mult.right) if isinstance(x, ast.Name)}
+                    if iv not in names_idx:
+                        continue
+                    block = (names_idx - {iv})
+                    alloc = allocs[st.targets[0].value.id]
+                    names_alloc = {x.id for x in (alloc.left, alloc.right) if isinstance(x, ast.Name)}
+                    count = names_alloc - block          # the N of p*N
+                    bound = loop.iter.args[0]
+                    if len(count) == 1 and isinstance(bound, ast.Name):
+                        N = next(iter(count))
+                        if bound.id == N:
+                            rep.ok("K16", 1, nontrivial=(f.fq, pyfacts.norm_stmt(st)), sample=f"{pyfacts.norm_stmt(st)[:50]}: {iv} in range({N}), allocation {ast.unparse(alloc)} rows")
+                        else:
+                            # the same value under another name?
+                            same = any(isinstance(a, ast.Assign) and isinstance(a.targets[0], ast.Name) and a.targets[0].id == bound.id and ast.unparse(a.value) == N for a in ast.walk(f.node))
+                            if not same:
+                                rep.finding("K16", f"{f.fq}:{pyfacts.norm_stmt(st)}", f"{pyfacts.where(f, loop)}: `{st.targets[0].value.id}` is allocated with {ast.unparse(alloc)} rows (one block per `{N}`) and filled at row `{ast.unparse(idx)}`, but `{iv}` only runs over range({bound.id}): for {bound.id} != {N} some blocks of the system stay zero / are out of range [{pyfacts.norm_stmt(st)}]")
+
+
 def K15_junk_characters(rep, flow: Flow):
     rep.rule("K15", "the Pauli-string parser rejects (raises on) every character that is not one of I, X, Y, Z - probed with the lower-case letters, digits, blanks and foreign letters, at the first, a middle and the last position of a generator - and a sign character anywhere but in front is never read as a Pauli", floor=20, exhaustive=True)
     prog = flow.prog
